@@ -150,7 +150,7 @@ pub fn on_fresh_thread<T: Send + 'static>(
     f: impl FnOnce() -> T + Send + 'static,
 ) -> ThreadOutcome<T> {
     let handle = std::thread::Builder::new()
-        .stack_size(512 << 20)
+        .stack_size(256 << 20)
         .spawn(move || {
             set_hash_seed(hash_seed);
             let r = std::panic::catch_unwind(std::panic::AssertUnwindSafe(f));
